@@ -21,7 +21,7 @@
 import Winter.Model.Fft
 
 namespace Model.Parallel
-open Model.Fft
+open Model.Fft (brev permuteIndex isPow2)
 
 /-! ## generic: steps, footprints, schedules -/
 
